@@ -21,6 +21,7 @@ any errors and setting a proper exit code to be passed to the end user.
 import argparse
 import itertools
 import logging
+import os
 import sys
 
 from cutplace import __version__, _tools, errors, gui, interface, rowio, sql, validio
@@ -31,6 +32,17 @@ assert DEFAULT_LOG_LEVEL in _tools.LOG_LEVEL_NAME_TO_LEVEL_MAP
 DEFAULT_VALIDATE_UNTIL = -1
 
 _log = logging.getLogger("cutplace")
+
+
+def _fail_early_if_unreadable(path):
+    """
+    Raise an environment error in case the file at ``path`` cannot be read at all.
+    """
+    is_special_file = os.path.exists(path) and not os.path.isfile(path) and not os.path.isdir(path)
+    if not is_special_file:
+        # Special files such as named pipes hand out their data only once, so leave opening them to the actual reader.
+        with open(path, "rb"):
+            pass
 
 
 class CutplaceApp(object):
@@ -142,9 +154,7 @@ class CutplaceApp(object):
         assert cid_path is not None
         new_cid = interface.Cid()
         _log.info('read CID from "%s"', cid_path)
-        with open(cid_path, "rb"):
-            # Fail early with an environment error in case the CID cannot be read at all.
-            pass
+        _fail_early_if_unreadable(cid_path)
         cid_rows = rowio.auto_rows(cid_path)
         new_cid.read(cid_path, cid_rows)
         self.cid = new_cid
@@ -160,9 +170,7 @@ class CutplaceApp(object):
         assert (self.validate_until is None) or (self.validate_until >= 0)
 
         _log.info('validate "%s"', data_path)
-        with open(data_path, "rb"):
-            # Fail early with an environment error in case the data cannot be read at all.
-            pass
+        _fail_early_if_unreadable(data_path)
 
         try:
             with validio.Reader(self.cid, data_path, validate_until=self.validate_until) as reader:
